@@ -57,6 +57,7 @@ func ResetRun() {
 	dialHook.Store(nil)
 	probeTransport.Store(nil)
 	resetFreeWaiters()
+	TakeFreePanics()
 }
 
 // LiveBackground reports how many goroutines started through Go() are still alive.
@@ -799,8 +800,33 @@ func Go(site string, fn func()) {
 	liveBG.Add(1)
 	go func() {
 		defer liveBG.Add(-1)
+		// a panic in a goroutine Helios started itself ends the real process; here it is
+		// recorded (with its stack) and reported by the harness at the end of the run
+		defer func() {
+			if r := recover(); r != nil && !dying.Load() {
+				st := debug.Stack()
+				freePanicMu.Lock()
+				freePanics = append(freePanics, TaskPanic{Task: "go@" + site, Value: fmt.Sprint(r), Stack: string(st)})
+				freePanicMu.Unlock()
+			}
+		}()
 		fn()
 	}()
+}
+
+var (
+	freePanicMu sync.Mutex
+	freePanics  []TaskPanic
+)
+
+// TakeFreePanics returns (and forgets) the panics that ended free-mode goroutines
+// started by Helios code before teardown began.
+func TakeFreePanics() []TaskPanic {
+	freePanicMu.Lock()
+	defer freePanicMu.Unlock()
+	p := freePanics
+	freePanics = nil
+	return p
 }
 
 // NewTicker replaces time.NewTicker: same ticker, but the period is recorded
